@@ -66,6 +66,12 @@ CONF = {
         "tiers": tiers(8, 12000, 16, 300000),
         "require_classes": ["kind:size", "kind:pair", "kind:pct", "kind:elapsed", "kind:eta", "kind:avgeta", "kind:speed", "kind:avgspeed", "kind:ewma", "kind:freeze", "current>2^64/100", "value>2^53", "unit-boundary", "duration>=24h", "zero-then-progress", "via-bar", "wrap-depth:4", "twin-moved", "avg:median"],
     },
+    "C19": {
+        "rule": "cases = (direction, underlying dynamic type: with/without Close x with/without WriteTo/ReadFrom, stream of 0-70000 bytes, bar total unknown/equal/above/below the stream length, 0-3 recording moving-average decorators under 0-3 wrapper layers, a script of up to 12 underlying results (byte limits incl. 0, errors with n>0, EOF with data, delays) and up to 12 consumer calls: Read/Write of generated sizes, io.Copy, io.ReadAll, direct WriteTo/ReadFrom, Close); non-trivial = >=3 transfers of >=2 sizes with an injected error/zero transfer or a fast-path type; distinct by FNV-64 of the case JSON",
+        "assumptions": GO_ASSUME + ["differential oracle: the same script is played on a bare twin of the underlying value by the same consumer", "sample durations are only bounded from below by the time the scripted call slept (time.Sleep guarantees at least that)"],
+        "tiers": tiers(8, 4000, 16, 100000),
+        "require_classes": ["dir:read", "dir:write", "fast-path-type", "closer", "ewma", "capped", "ewma-samples-checked"],
+    },
     "C05": {
         "rule": "cases = sequential scenarios (container config, 1-7 bar specs, program of add/incr/set/abort/priority/write/tick/cancel steps) drawn by rapid; non-trivial = >=3 frames and >=1 change of the displayed set between frames; distinct by FNV-64 of the scenario JSON",
         "assumptions": GO_ASSUME + SCHED_ASSUME + ["one output Write call = one frame (cwriter flushes its buffer with a single Write)", "exact frame model only for manual refresh, sequential client and queue length > number of bars; otherwise history invariants"],
